@@ -4,7 +4,7 @@ import math
 import torch
 from hypothesis import strategies as st
 
-from .. import sdes, sdes_closed
+from .. import core, sdes, sdes_closed
 from ..core import Fail, Result
 
 ID = "C01"
@@ -51,7 +51,9 @@ def _case(draw, tier, adaptive=False):
             "dt0": draw(st.sampled_from([0.5, 0.5, 0.1, 1.0, 2.0])),
             "rel_only": draw(st.sampled_from([False, False, True])),
             # ts given as a Python list, and a Brownian motion defined on a longer interval than the one integrated over
-            "ts_list": draw(st.sampled_from([False, False, True]))}
+            "ts_list": draw(st.sampled_from([False, False, True])),
+            # the autograd context the solve is requested in (no_grad / inference_mode / grad enabled, nothing requiring it)
+            "ctx": draw(st.sampled_from(["no_grad", "no_grad", "inference", "grad"]))}
 
 
 @st.composite
@@ -127,14 +129,16 @@ def enumerate_cases(tier):
                    "T": rnd.choice([0.5, 1.0, 0.75]), "entropy": rnd.randrange(2 ** 31 - 2),
                    "y0seed": rnd.randrange(2 ** 31), "kmax": 8 if tier == "quick" else 10,
                    "paths": 2048 if tier == "quick" else 4096, "clip": (idx + seed) % 2 == 0,
-                   "outs": [[], [0.37], [1 / 3, 0.7]][(idx + seed) % 3], "ts_list": (idx + seed) % 4 == 1}
+                   "outs": [[], [0.37], [1 / 3, 0.7]][(idx + seed) % 3], "ts_list": (idx + seed) % 4 == 1,
+                   "ctx": "inference" if (idx + seed) % 2 == 0 else "no_grad"}
             if (fam, phi) == ADAPTIVE_FAMILY[nt]:
                 # the adaptive clause on every accepted cell as well (a curved family where there is one): random draws
                 # alone left e.g. (reversible_heun, adaptive, non-linear coefficients) unvisited in most runs
                 yield {"kind": "adaptive", "combo": combo, "spec": dict(spec), "t0": rnd.choice([0.0, 0.5, -1.0, 0.0, 4096.0, -20000.0]),
                        "T": rnd.choice([0.5, 1.0]), "entropy": rnd.randrange(2 ** 31 - 2),
                        "y0seed": rnd.randrange(2 ** 31), "kmax": 8, "paths": 512 if tier == "quick" else 2048,
-                       "clip": False, "dt0": [0.5, 1.0, 2.0, 0.1][(idx + seed) % 4], "rel_only": (idx + seed) % 2 == 0}
+                       "clip": False, "dt0": [0.5, 1.0, 2.0, 0.1][(idx + seed) % 4], "rel_only": (idx + seed) % 2 == 0,
+                       "ctx": "inference" if (idx + seed) % 3 == 0 else "no_grad"}
 
 
 def _solver_order(torchsde, sde, bm, combo):
@@ -222,7 +226,7 @@ def run_case(case):
     labels = [label, f"family={spec['family']}" + (f":{spec['phi']}" if spec["family"] == "reducible" else ""),
               f"levy={combo['levy']}"] + (["clipped_last_step"] if case.get("clip") and case["kind"] == "ladder" else []) + \
         (["interior_outputs_off_grid"] if case.get("outs") else []) + \
-        (["ts_as_list_bm_on_longer_interval"] if case.get("ts_list") else [])
+        (["ts_as_list_bm_on_longer_interval"] if case.get("ts_list") else []) + [f"ctx={case.get('ctx') or 'no_grad'}"]
     opts = dict(combo["options"]) or None
     ks = list(range(3, (kmax if nc else kmax + 1)))
     if anl:
@@ -243,11 +247,11 @@ def run_case(case):
         errs = []
         tols = [1e-1, 1e-2, 1e-3, 1e-4]
         for tol in tols:
-            with torch.no_grad():
+            with core.grad_ctx(case.get("ctx")):
                 ys = torchsde.sdeint(sde, y0, ts, bm=bm, method=combo["method"], dt=case["T"] * case.get("dt0", 0.5),
                                      adaptive=True,
                                      rtol=tol, atol=0.0 if rel_only else tol, dt_min=case["T"] * 2.0 ** -12, options=opts)
-            errs.append(err_of(ys))
+            errs.append(err_of(ys.detach()))
         checks += 1
         fail = None
         # a gain is only required when the loosest run's error is well above what the tightest tolerance asks for
@@ -280,8 +284,9 @@ def run_case(case):
     for k in ks:
         # "clip": the horizon is not a multiple of dt, so the last step is clipped to ts[-1] (shorter than dt)
         dt = case["T"] * 2.0 ** -k * (0.93 if case.get("clip") else 1.0)
-        with torch.no_grad():
+        with core.grad_ctx(case.get("ctx")):
             ys = torchsde.sdeint(sde, y0, ts, bm=bm, method=combo["method"], dt=dt, options=opts)
+        ys = ys.detach()
         errs.append(err_of(ys))
     checks += 1
     if not all(math.isfinite(e) for e in errs):
